@@ -8,6 +8,11 @@ NOT_APPLICABLE = {
     'C03': 'C++ exception capture/transport/rethrow: CBMC\'s usable front end here is C, extraction drops try/catch, so no contract can mention the behaviour (DESIGN.md §6)',
 }
 CLAIMS = {
+    'C12': {
+        'technique': 'CBMC loop-free / width-bounded-unwinding harnesses on the split-order key arithmetic (bit reversal table, regular/dummy keys, parent buckets) and rely/guarantee on my_bucket_count for its writers, sliced from _concurrent_unordered_base.h and _machine.h',
+        'text': 'For all 2^64 hashes and every table size 2^k: bit reversal is an involution mapping bit i to 63-i; regular keys are odd, dummy keys even; an element sorts after its own bucket dummy and no other bucket dummy lies in between (so it stays reachable after every doubling); parent(b) < b and dummy(parent) < dummy(b); hash % 2^k is the low-bit mask. The bucket count stays a power of two and never shrinks under rehash() and adjust_table_size() for any number of threads (SC).',
+        'note': 'Trusted: others only replace the bucket count by a larger power of two (rely; reserve() not proved), SC atomics. Not decided: lock-free list insertion, dummy-node initialisation races, skip list linking, traversal-sees-each-once.',
+    },
     'C06': {
         'technique': 'CBMC contracts on parallel_sort.h: the probe loop of quick_sort_pretest_body under a dfcc loop contract with a ghost adjacent pair, the serial probe unwound completely, parallel_for as a stub that runs the body on an arbitrary chunk; loop-free harnesses for dispatch and median selection',
         'text': 'For every length >= 500 and an arbitrary adjacent pair (p,p+1): if that pair is an inversion the whole sequence is handed to the quicksort - the pre-sortedness probe can never declare an unsorted input sorted, and it never compares a position outside [begin,end); parallel_sort dispatches < 500 elements to the serial sort, empty/reversed pairs to nothing; median_of_three returns one of its candidates holding the median value.',
